@@ -21,7 +21,7 @@ def plan(tier, seed, excl):
     t += [('scalars', {'shard': i, 'n': 4000 if q else 60000}) for i in range(8)]
     t += [('sizes', {'shard': i, 'of': 8, 'tier': tier}) for i in range(8)]
     t.append(('after-failed-dump', {}))
-    t.append(('fixed-offset', {}))
+    t += [('fixed-offset', {'order': k}) for k in range(3)]
     t += [('independent-results', {'shard': i, 'of': 4, 'n': 300 if q else 4000}) for i in range(4)]
     t += [('grids', {'shard': i, 'n': 2500 if q else 30000}) for i in range(16)]
     return t
